@@ -1,0 +1,55 @@
+//go:build verif
+
+// Verification hook for property C02 (add-only, compiled only with -tags verif). Nothing here changes
+// the behaviour of the package.
+package executor
+
+import (
+	"context"
+	"sync"
+	"time"
+
+	"github.com/AliceO2Group/Control/executor/executable"
+	mesos "github.com/mesos/mesos-go/api/v1/lib"
+	"github.com/mesos/mesos-go/api/v1/lib/executor"
+	"github.com/mesos/mesos-go/api/v1/lib/executor/calls"
+)
+
+// VerifC02HandleMessage runs the executor's message handler (handleMessageEvent) on one incoming
+// MESSAGE payload, in an executor whose active tasks are exactly `active` (task id -> task; a nil
+// value is an entry without a task), and returns the payload of every MESSAGE call the executor
+// made in answer: the handler answers a transition from a goroutine of its own, so the function
+// waits for the first call at most `wait` and then `settle` more for further ones.
+func VerifC02HandleMessage(executorId string, active map[string]executable.Task, data []byte, wait, settle time.Duration) (sent [][]byte, err error) {
+	var mu sync.Mutex
+	first := make(chan struct{}, 1)
+	state := &internalState{
+		executor:    mesos.ExecutorInfo{ExecutorID: mesos.ExecutorID{Value: executorId}},
+		activeTasks: make(map[mesos.TaskID]executable.Task),
+		cli: calls.SenderFunc(func(_ context.Context, req calls.Request) (mesos.Response, error) {
+			call := req.Call()
+			if call != nil && call.Type == executor.Call_MESSAGE && call.Message != nil {
+				mu.Lock()
+				sent = append(sent, append([]byte(nil), call.Message.Data...))
+				mu.Unlock()
+				select {
+				case first <- struct{}{}:
+				default:
+				}
+			}
+			return nil, nil
+		}),
+	}
+	for id, t := range active {
+		state.activeTasks[mesos.TaskID{Value: id}] = t
+	}
+	err = handleMessageEvent(state, data)
+	select {
+	case <-first:
+		time.Sleep(settle)
+	case <-time.After(wait):
+	}
+	mu.Lock()
+	defer mu.Unlock()
+	return append([][]byte(nil), sent...), err
+}
